@@ -1,6 +1,7 @@
 //! mc <Cxx> [--tier quick|thorough] [--replay <file>]
 mod gen;
 mod props;
+mod reftext;
 mod report;
 mod spec;
 mod textgen;
